@@ -27,6 +27,8 @@ EXPLANATION += ' RV-RT-STOREORDER, CTOR-INIT, RVV-JIT-VLEN.'
 EXPLANATION += ' RV-LOOPLOAD, RV-DSREAD-LIGHT.'
 CLAIM += (' The load half of the loop executed on terms: r_j ^= quadword j at the first address, f / e lanes converted from the sixteen 32-bit integers at the second address in order, e lanes masked with one and-mask and the or-mask of their lane parity (RV-LOOPLOAD, both ISA variants).')
 
+EXPLANATION += ' RV-DSITEM-HSEM.'
+
 
 def run(ctx, R):
     FI = astq.Facts(ctx, 'K0')
@@ -60,3 +62,4 @@ def run(ctx, R):
     aeshw.rule_rvv_jit_vlen(ctx, R)
     genreset.rule_ctor_init(ctx, R, 'rv64')
     rtpreserve.rule_store_order(ctx, R, 'rv64')
+    rvdsread.rule_dsitem(ctx, R)
